@@ -64,7 +64,7 @@ func mintBlock(w *World, ctx sdk.Context, denom string, ns int64) (*big.Int, str
 	before := w.App.BankKeeper.GetSupply(bctx, denom).Amount
 	var pan interface{}
 	func() {
-		defer func() { pan = recover() }()
+		defer func() { pan = notRapid(recover()) }()
 		cfeminter.BeginBlocker(bctx, w.App.CfeminterKeeper)
 	}()
 	after := w.App.BankKeeper.GetSupply(bctx, denom).Amount
